@@ -389,6 +389,7 @@ impl Clone for TransitionCycle {
         r is Ok ==> r->Ok_0.ids_ok(), // @obl C10.replace_by_dummy.ids_stay_valid
 //@first
         hide(Schedule::rs_ok);
+        hide(Schedule::transitions_ok);
         hide(Schedule::listed_ok);
         hide(Schedule::upd_pre);
         hide(Schedule::touches_type);
